@@ -6,7 +6,7 @@
 From Coq Require Import List ZArith NArith Bool Lia Arith.
 From Mimium Require Import Heap.Model Heap.SlotMap.
 From Mimium Require Import Bvm.Model Bvm.Verify Bvm.ListLemmas Bvm.SoundAbs Bvm.SoundStep Bvm.SoundRun.
-From Mimium Require Import Bvm.XModel Bvm.XVerify Bvm.XInv Bvm.XDyn Bvm.XLocal Bvm.XSoundStep.
+From Mimium Require Import Bvm.XModel Bvm.XVerify Bvm.XInv Bvm.XDyn Bvm.XLocal Bvm.XSoundStep Bvm.XSoundArr.
 Import ListNotations.
 Local Open Scope N_scope.
 
@@ -267,7 +267,7 @@ Section Run.
       rewrite R6, Hst1. apply (firstn_le_eq _ _ _ _ (nn (base + fr))); [rewrite C6, Hst0; reflexivity|unfold nn; lia]. }
     (* ---- the instruction ---- *)
     destruct (xdecode i) as [u|d fr|s|fr nargs nret|d fr|s|s|fr nargs nret|d iu|iu s n|d s n|d s n|s|s|d s n|d l e|d ar ix|ar ix v] eqn:Ed;
-      try (apply Hlocal; apply (xstep_sound A p f fi Hfi base p0 pc ci a _ x fl succs Hflow I F Hx)).
+      try (apply Hlocal; apply (xstep_sound p f fi Hfi base p0 pc ci a _ x fl succs Hflow I F Hx)).
     - (* an instruction of Bvm/Model.v *)
       destruct u as [d s|d c|d v|d s n|o d x1 y|o d x1|fr nargs nret|fr nargs nret| |r n|off|c off|s t|d g n|g s n|d n|s n|q|q|d s t|d s|r n t|];
         cbn [xflow] in Hflow;
@@ -286,13 +286,8 @@ Section Run.
         rewrite (frs_known _ _ _ _ _ _ _ _ _ _ F El).
         apply (Hcall fr nargs nret (Z.to_N kf) None g Hrd Hargs Eg Hpw Hnr (or_introl eq_refl)).
         split; [exact Eup|]. intros s Hs. destruct F as (_ & _ & _ & _ & _ & F6 & _). destruct (F6 s Hs) as [P1 P2]. lia.
-      + (* UExt: the verifier accepts pure external functions only *)
-        apply Hlocal. unfold xextcall.
-        pose proof Hflow as Hflow'. cbn [flow] in Hflow'.
-        destruct (alookup (a_regs a) fr) as [kx|] eqn:El; [|discriminate].
-        rewrite (frs_known _ _ _ _ _ _ _ _ _ _ F El).
-        destruct (rd1 (p_ext p) (Z.to_N kx)) as [[code arity| |aop aew]|]; try discriminate.
-        apply (xlocal_sound A p f fi base p0 pc ci a _ x fl succs Hflow I F Hx).
+      + (* UExt: pure external functions, the array builtins, the scheduler call *)
+        apply Hlocal. apply (xextcall_sound A p f fi base p0 pc ci a fr nargs nret x fl succs Hflow F Hx).
       + (* URet0 *)
         cbn [xflow flow] in Hflow.
         match type of Hflow with (if ?c then _ else _) = _ => destruct c eqn:Econd; [|discriminate] end.
@@ -351,5 +346,9 @@ Section Run.
       + destruct (rd1_lt _ (p_funs p) g Hsp) as [gf G1].
         destruct (strict_ok_spec _ _ _ _ _ _ Es G1) as (S1 & S2 & S3).
         apply (Hcall fr nargs nret g None gf Hrd Hargs G1 S1 S2 (or_introl eq_refl)). exact S3.
+    - (* XGetArr *)
+      apply Hlocal. apply (xgetarr_sound A p f fi base p0 pc ci a d ar ix x fl succs Hflow F Hx).
+    - (* XSetArr *)
+      apply Hlocal. apply (xsetarr_sound A p f fi base p0 pc ci a ar ix v x fl succs Hflow F Hx).
   Qed.
 End Run.
